@@ -133,5 +133,5 @@ Qed.
 
 (* ---- the record setters ---- *)
 Lemma member_eta : forall m, m = mkM (m_name m) (m_live m) (m_id m) (m_gen m) (m_ph m) (m_rejoin m) (m_ck m) (m_hb m)
-  (m_wait m) (m_inbox m) (m_hbin m) (m_cmin m).
+  (m_focus m) (m_inbox m) (m_hbin m) (m_cmin m).
 Proof. destruct m; reflexivity. Qed.
